@@ -55,7 +55,7 @@ def gen_layout_schema(r, prefix="L"):
                 t = ("arr", ("arr", rand_scalar(r, enums), r.randint(1, 3)), r.randint(1, 3))
             fields.append({"name": "f%d" % j, "id": fid, "type": t})
             if r.random() < 0.2:
-                fields[-1]["unit"] = r.choice(["m/s", "C", "V", "rpm", ""])
+                fields[-1]["unit"] = r.choice(["m/s", "C", "V", "rpm", "", "°C", "µV", "mΩ"])
         decls.append(mk_struct(n, fields))
         structs.append(n)
     # a struct whose layout cannot be computed (fixed fields followed by a variable-size one): its
@@ -156,7 +156,7 @@ def gen_budget_struct(r, name, budget, enums, enum_w, structs, struct_w, fidx, f
         fidx[0] += 1
         f = {"name": "s%d" % fidx[0], "id": fid, "type": t}
         if r.random() < 0.25:
-            f["unit"] = r.choice(["m/s", "C", "V", "rpm", "kg", "%"])
+            f["unit"] = r.choice(["m/s", "C", "V", "rpm", "kg", "%", "°C", "µV", "mΩ"])
         fields.append(f)
         left -= w
     return mk_struct(name, fields), budget - left
